@@ -10,7 +10,7 @@ import (
 
 func init() { hx.Register("C16", Run) }
 
-// Run: part A (flag word under every interleaving), part A' (allocation of that word), then part B (threshold automaton of the active health checker).
+// Run: part A (flag word under every interleaving), part A' (allocation of that word), then part B (threshold automaton of the active health checker), then part C (life cycle of the checkers of several clusters sharing addresses).
 func Run(c *hx.Ctx) {
 	if len(c.Args) > 1 && c.Args[0] == "probe" { // mosnh C16 probe <results> [u h word0]: one factory-path history
 		u, h, w := uint32(1), uint32(1), uint64(0)
@@ -23,7 +23,12 @@ func Run(c *hx.Ctx) {
 		c.Emit("C16", cs, impl)
 		return
 	}
+	if len(c.Args) > 0 && c.Args[0] == "lc" { // mosnh C16 lc: the life-cycle part alone
+		runLifecycleKind(c)
+		return
+	}
 	runFlags(c)
 	runAlloc(c)
 	runChecker(c)
+	runLifecycleKind(c)
 }
